@@ -378,6 +378,10 @@ get_wrapper_by_unique_name(const string &unique_name) {
   // wrapper_hash_name.
 
   // The first four characters are always the library_name.
+  if (unique_name.size() < 4) {
+    // Too short to contain a library hash; it cannot name any wrapper.
+    return 0;
+  }
   string library_hash_name = unique_name.substr(0, 4);
   string wrapper_hash_name = unique_name.substr(4);
 
@@ -1371,7 +1375,7 @@ binary_search_wrapper_hash(InterrogateUniqueNameDef *begin,
   InterrogateUniqueNameDef *mid = begin + (end - begin) / 2;
   string name = mid->name;
   if (name < wrapper_hash_name) {
-    return binary_search_wrapper_hash(mid, end, wrapper_hash_name);
+    return binary_search_wrapper_hash(mid + 1, end, wrapper_hash_name);
 
   } else if (wrapper_hash_name < name) {
     return binary_search_wrapper_hash(begin, mid, wrapper_hash_name);
